@@ -435,5 +435,9 @@ func runC10(c *config) {
 		}
 	}
 	o.Sample(map[string]interface{}{"kind": "half", "literal": "0xH3C00", "printed": func() string { c1, _, _ := c10Parse(c10Kinds[0], "0xH3C00"); s, _ := c10Ident(c1); return s }()})
-	o.Sample(map[string]interface{}{"kind": "x86_fp80", "literal": "0xK3FFF8000000000000000", "printed": func() string { c1, _, _ := c10Parse(c10Kinds[3], "0xK3FFF8000000000000000"); s, _ := c10Ident(c1); return s }()})
+	o.Sample(map[string]interface{}{"kind": "x86_fp80", "literal": "0xK3FFF8000000000000000", "printed": func() string {
+		c1, _, _ := c10Parse(c10Kinds[3], "0xK3FFF8000000000000000")
+		s, _ := c10Ident(c1)
+		return s
+	}()})
 }
